@@ -331,6 +331,10 @@ func coreReplay(m map[string]string) error {
 			if !waitingForChoice {
 				arg = arbitraryArg(rnd)
 			}
+			var prevVars []Val
+			if h.rec != nil {
+				prevVars = h.vars()
+			}
 			obs := h.next(arg)
 			waitingForChoice = obs.Out["k"] == "opts"
 			if jsonEqual(st.Out, map[string]any{"k": "oos"}) {
@@ -359,7 +363,7 @@ func coreReplay(m map[string]string) error {
 				field, exp, got = "fcalls", st.Fcalls, obs.Fcalls
 			case !jsonEqual(st.Ccalls, obs.Ccalls):
 				field, exp, got = "ccalls", st.Ccalls, obs.Ccalls
-			case h.rec != nil && !jsonEqual(st.Writes, obs.Writes):
+			case h.rec != nil && !sameEffectiveWrites(prevVars, h.c.Vars, st.Writes, obs.Writes):
 				field, exp, got = "writes", st.Writes, obs.Writes
 			case h.storer != nil && !jsonEqual(st.Vars, obs.Vars):
 				field, exp, got = "vars", st.Vars, obs.Vars
@@ -551,4 +555,33 @@ func coreASTOne(m map[string]string) error {
 	}
 	fmt.Printf("{\"what\":%q}\n", what)
 	return nil
+}
+
+// sameEffectiveWrites compares two write logs by effect: writes that store the value a variable
+// already has are dropped on both sides (see EffWrites in spec/YarnTrace.tla).
+func sameEffectiveWrites(prev []Val, names []string, exp json.RawMessage, got []writeRec) bool {
+	var expW []writeRec
+	if err := json.Unmarshal(exp, &expW); err != nil {
+		return false
+	}
+	eff := func(ws []writeRec) []writeRec {
+		cur := map[string]Val{}
+		for i, n := range names {
+			if i < len(prev) {
+				cur[n] = prev[i]
+			}
+		}
+		var out []writeRec
+		for _, w := range ws {
+			if v, ok := cur[w.Var]; ok && v == w.Val {
+				continue
+			}
+			cur[w.Var] = w.Val
+			out = append(out, w)
+		}
+		return out
+	}
+	a, _ := json.Marshal(eff(expW))
+	b, _ := json.Marshal(eff(got))
+	return string(a) == string(b)
 }
